@@ -404,3 +404,166 @@ func init() {
 		},
 	})
 }
+
+// ------------------------------------------------------------ regex (C06)
+// The real git.RegexpFilter against the Lean definition of "matches the entire reference name"
+// (Spec/Regex.FullMatch, decided by Model/Regex.matchB, proved in Proofs/Regex). Go's regexp is the
+// implementation here, not the oracle; its answers (full and naive anchoring) are passed along so that the
+// oracle bits used by the `refs` engine are themselves checked against the Lean matcher.
+
+var regexEdgePool = []string{
+	`^*`, `$*x`, `(|a)*b`, `()`, `(?:)`, `a||b`, `[a-]`, `[-a]`, `[a\-z]+`, `[\d-z]+`, `x{`, `x{a}`, `x{1`, `x{,2}`, `}`, `]`, `\/`, `\_`,
+	`a{2}`, `a{2,}`, `a{2,3}`, `a{3,2}`, `a{1001}`, `(a{2}){3}`, `a{2}{3}`, `a{2}*`, `a*{2}`, `a*?`, `a+?`, `a??`, `a*??`, `a{2}?`, `a{0}`, `a{0,0}b`, `(ab){1,2}`,
+	`\D+`, `\W`, `\S*`, `[^\d]`, `[\D]`, `[[:alpha:]]`, `\pL`, `\bfoo`, `\Afoo\z`, `(?i)refs/HEADS/.*`, `(?i)[a-c]+`, `(?i)[^a-c]+`, `(?i)[X-b]`, `(?s).`, `(?i:a)`, `(?P<x>a)`,
+	`.`, `[^a]`, `a.b`, `\.`, `refs/heads/^x`, `a$b`, `(^a|b$)*`, `(a|ab)(c|bcd)`, `(a*)*`, `(a*)+b`, `x*`, `[a-c-e]+`, `[a-c\]]`, `[]a]`, `[^]a]`, `[a`, `a)`, `(a`, `\`, `a\`, `*a`, `+`, `?`, `|`, `a|b|`,
+	`(?i)É`, `é`, `[é]`, `a|^`, `($|a)b`, `(a|$)`, `^^a$$`, `a^`, `$a`, `(^)*a`, `(a?)*b`, `((a|b)*c)*`, `[a-a]`, `[b-a]`, `[\w-]`, `[a-\d]`, `[+--]`, `[--/]`, `\-`, `a{,}`, `a{1,2,3}`, `{`, `{1}`, `a|{1}`, `(?:{2})`, `(*)`, `(|)`, `[^\n]`, `\n`, `\t`,
+}
+
+func genRegexComponent(r *rng, comp string) string {
+	q := regexp.QuoteMeta(comp)
+	switch r.n(14) {
+	case 0:
+		return `[^/]+`
+	case 1:
+		return `[^/]*`
+	case 2:
+		return `.*`
+	case 3:
+		return `(` + q + `|` + []string{"foo", "master", "x", "v1", ""}[r.n(5)] + `)`
+	case 4:
+		if len(comp) > 1 {
+			return regexp.QuoteMeta(comp[:len(comp)-1]) + regexp.QuoteMeta(comp[len(comp)-1:]) + `?`
+		}
+		return q + `?`
+	case 5:
+		return `[a-m]+`
+	case 6:
+		return `\w+`
+	case 7:
+		return `[\w.-]*`
+	case 8:
+		if len(comp) > 2 {
+			k := 1 + r.n(len(comp)-1)
+			return regexp.QuoteMeta(comp[:k]) + `.*`
+		}
+		return q
+	case 9:
+		return q + `(/.*)?`
+	case 10:
+		return `(?:` + q + `)+`
+	case 11:
+		return `\d{1,3}`
+	default:
+		return q
+	}
+}
+
+func genRegex(r *rng, depth int) string {
+	name := refPool[r.n(len(refPool))]
+	comps := strings.Split(name, "/")
+	var out []string
+	for i, c := range comps {
+		if i == 0 && r.n(4) != 0 {
+			out = append(out, c)
+			continue
+		}
+		out = append(out, genRegexComponent(r, c))
+	}
+	if r.coin(1, 4) {
+		out = out[:1+r.n(len(out))]
+	}
+	p := strings.Join(out, "/")
+	switch r.n(10) {
+	case 0:
+		p = "^" + p
+	case 1:
+		p = p + "$"
+	case 2:
+		p = "^" + p + "$"
+	case 3:
+		p = "(?i)" + strings.ToUpper(p[:len(p)/2]) + p[len(p)/2:]
+	case 4:
+		p = "(" + p + ")"
+	}
+	if depth < 2 && r.coin(1, 3) {
+		p = p + "|" + genRegex(r, depth+1)
+	}
+	return p
+}
+
+func genRegexNames(r *rng, short bool) []string {
+	var names []string
+	n := 4 + r.n(6)
+	for i := 0; i < n; i++ {
+		if short {
+			alpha := "aabbc-ex{}]/._1\n A^$"
+			k := r.n(5)
+			var b []byte
+			for j := 0; j < k; j++ {
+				b = append(b, alpha[r.n(len(alpha))])
+			}
+			names = append(names, string(b))
+			continue
+		}
+		s := refPool[r.n(len(refPool))]
+		switch r.n(10) {
+		case 0:
+			s = s[:r.n(len(s)+1)]
+		case 1:
+			s = s + []string{"/", "x", "/x", "1", "\n", "-rc1"}[r.n(6)]
+		case 2:
+			s = strings.ToUpper(s)
+		case 3:
+			s = "x" + s
+		case 4:
+			s = s + "/é"
+		}
+		names = append(names, s)
+	}
+	return names
+}
+
+func init() {
+	register(&engine{
+		name: "regex",
+		gen: func(r *rng, i int, tier string) []string {
+			var p string
+			short := false
+			switch k := r.n(10); {
+			case k < 2:
+				p = rePool[r.n(len(rePool))]
+			case k < 5:
+				p = regexEdgePool[r.n(len(regexEdgePool))]
+				short = true
+			default:
+				p = genRegex(r, 0)
+			}
+			names := genRegexNames(r, short)
+			if short && r.coin(1, 2) {
+				names = append(names, genRegexNames(r, false)[:2]...)
+			}
+			var hs []string
+			for _, n := range names {
+				hs = append(hs, hxs(n))
+			}
+			return []string{hxs(p), joinOrDash(hs, ","), regexOracle([]string{p}, names)}
+		},
+		exec: func(in []string) []string {
+			p := string(unhx(in[0]))
+			f, err := git.RegexpFilter(p)
+			if err != nil {
+				return []string{"invalid"}
+			}
+			var bits strings.Builder
+			for _, h := range splitOrNil(in[1], ",") {
+				if f.Filter(string(unhx(h))) {
+					bits.WriteByte('1')
+				} else {
+					bits.WriteByte('0')
+				}
+			}
+			return []string{"ok", bits.String()}
+		},
+		class: func(in, res []string) string { return res[0] },
+	})
+}
